@@ -103,11 +103,14 @@ Definition admissible (t : tree) (a : app) (n : str) : option str :=
                  end
        end.
 
+(* an empty name is no result *)
+Definition norm (r : rres) : rres := match r with RName [] => RNone | x => x end.
+
 (* result of rule number i; the last rule falls back to root.default when it yields nothing *)
 Definition yield (t : tree) (a : app) (rs : list rule) (i : nat) : rres :=
   match nth_error rs i with
   | None => RNone
-  | Some r => match s_rule t a r with
+  | Some r => match norm (s_rule t a r) with
               | RNone => if Nat.eqb (S i) (length rs) && q_exists t s_default_full
                          then RName s_default_full else RNone
               | x => x
@@ -130,92 +133,91 @@ Definition chosen_at (t : tree) (a : app) (rs : list rule) (i : nat) : option st
   end.
 
 (* ---------- creation ---------- *)
-(* every level of the rule chain whose own result does not exist has create switched on (the test
-   rule, which has no create semantics, is exempt) *)
-Fixpoint create_ok (t : tree) (a : app) (r : rule) : bool :=
+(* the create flag and the result of every level of a rule chain that contributed to the result:
+   each level either has create switched on or yields a queue that exists (the recovery and test
+   rules have no create semantics); see [levels_create] in PlacementProofs.v *)
+Fixpoint levels (t : tree) (a : app) (r : rule) : list (bool * str) :=
   let 'Rule k create f parent := r in
-  match s_rule t a r with
-  | RName n =>
-      (create || q_exists t n || match k with KTest => true | _ => false end)
-      && match k, parent with
-         | (KProvided | KUser | KTag _ | KFixed _ _), Some p =>
-             match s_source k a with
-             | Some src => if s_qualified k src then true else create_ok t a p
-             | None => true
-             end
-         | _, _ => true
-         end
-  | _ => true
+  match k with
+  | KRecovery | KTest => []
+  | _ =>
+      match s_rule t a r with
+      | RName n =>
+          (create, n) ::
+          match parent, s_source k a with
+          | Some p, Some src => if s_qualified k src then [] else levels t a p
+          | _, _ => []
+          end
+      | _ => []
+      end
   end.
 
-Definition same_queue (x y : queue) : bool :=
+Definition acl_eqb (x y : acl) : bool :=
+  list_eqb str_eqb (a_users x) (a_users y) && list_eqb str_eqb (a_groups x) (a_groups y)
+  && Bool.eqb (a_all x) (a_all y).
+Definition queue_eqb (x y : queue) : bool :=
   path_eqb (q_path x) (q_path y) && Bool.eqb (q_leaf x) (q_leaf y) && Bool.eqb (q_managed x) (q_managed y)
-  && qstate_eqb (q_state x) (q_state y) && (q_template x =? q_template y) && (q_maxapps x =? q_maxapps y).
+  && qstate_eqb (q_state x) (q_state y) && acl_eqb (q_submit x) (q_submit y) && acl_eqb (q_admin x) (q_admin y)
+  && (q_template x =? q_template y) && (q_maxapps x =? q_maxapps y).
+Definition unchanged (t t' : tree) : bool := list_eqb queue_eqb t t'.
 
-Definition unchanged (t t' : tree) : bool :=
-  (Nat.eqb (length t) (length t')) &&
-  forallb (fun q => match find_q t' (q_path q) with Some q' => same_queue q q' | None => false end) t.
-
-(* the queues of [t'] that are not in [t] *)
-Definition new_queues (t t' : tree) : list queue :=
-  filter (fun q => match find_q t (q_path q) with Some _ => false | None => true end) t'.
-
-(* longest prefix of [p] that is a queue of [t] *)
-Definition anchor (t : tree) (p : list str) : option queue :=
-  fold_left (fun acc pre => match find_q t pre with Some q => Some q | None => acc end) (prefixes [] p) None.
-
-(* [p] was created below an existing non-leaf, not draining queue; every new queue lies between
-   that queue and [p], has a valid name, is dynamic, active, and carries the template of the queue it
-   was created under: the leaf received it (maxapps), the new parents pass it on *)
-Definition created_ok (t t' : tree) (p : list str) : bool :=
-  match anchor t p with
-  | None => false
-  | Some anc =>
-      negb (q_leaf anc) && negb (qstate_eqb (q_state anc) QDraining)
-      && forallb (fun q => match find_q t' (q_path q) with Some q' => same_queue q q' | None => false end) t
-      && (Nat.eqb (length t') (length t + (length p - length (q_path anc))))
-      && forallb (fun q =>
-            is_prefix (q_path anc) (q_path q) && is_prefix (q_path q) p
-            && name_valid (last (q_path q) []) && negb (q_managed q) && qstate_eqb (q_state q) QActive
-            && Bool.eqb (q_leaf q) (path_eqb (q_path q) p)
-            && (if path_eqb (q_path q) p
-                then (q_maxapps q =? q_template anc) && (q_template q =? 0)
-                else (q_template q =? q_template anc) && (q_maxapps q =? 0)))
-           (new_queues t t')
+(* the new queues form the chain from the queue with path [ppath] down to [p]: each is the child of
+   the previous one, has a valid name, is dynamic and active; the new parents pass the template
+   [tmpl] on, the last one is the leaf [p] and received it (maxapps) *)
+Fixpoint chain_ok (ppath : list str) (tmpl : N) (news : list queue) (p : list str) : bool :=
+  match news with
+  | [] => false
+  | q :: r =>
+      path_eqb (removelast (q_path q)) ppath
+      && name_valid (last (q_path q) []) && negb (q_managed q) && qstate_eqb (q_state q) QActive
+      && match r with
+         | [] => q_leaf q && (q_maxapps q =? tmpl) && (q_template q =? 0) && path_eqb (q_path q) p
+         | _ => negb (q_leaf q) && (q_template q =? tmpl) && (q_maxapps q =? 0) && chain_ok (q_path q) tmpl r p
+         end
   end.
+
+(* [p] did not exist: the old queues are untouched, and for some existing queue [anc] on the path
+   (the one the creation started from: its child on the path did not exist), [anc] is neither a leaf
+   nor draining and the new queues are the chain from [anc] to [p] carrying [anc]'s child template *)
+Definition created_ok (t t' : tree) (p : list str) : bool :=
+  let n := length t in
+  unchanged t (firstn n t')
+  && existsb (fun k =>
+       match get_parts t (firstn k p) with
+       | Some anc =>
+           match get_parts t (firstn (S k) p) with
+           | Some _ => false
+           | None => negb (q_leaf anc) && negb (qstate_eqb (q_state anc) QDraining)
+                     && chain_ok (q_path anc) (q_template anc) (skipn n t') p
+           end
+       | None => false
+       end) (seq 1 (length p)).
 
 (* ---------- the three clauses of C17 ---------- *)
 Definition no_stopped (t : tree) : bool := forallb (fun q => negb (qstate_eqb (q_state q) QStopped)) t.
 
 Definition placed_ok_b (w : world) (a : app) (p : list str) (w' : world) : bool :=
   let t := w_tree w in let t' := w_tree w' in
-  (* in a leaf queue *)
-  (* in a leaf queue that is not draining; Active unless the hierarchy held a Stopped queue (a state no
-     production code path gives to a queue) *)
-  match find_q t' p with
+  let is_rec := path_eqb p recovery_parts in
+  (* in a leaf queue that is not draining (Active unless the hierarchy held a Stopped queue, a state
+     no production code path gives to a queue); forced placement in the recovery queue checks nothing *)
+  match get_parts t' p with
   | Some q => q_leaf q
-              && (path_eqb p recovery_parts   (* forced placement in the recovery queue performs no checks *)
-                  || negb (qstate_eqb (q_state q) QDraining)
-                     && (if no_stopped t then qstate_eqb (q_state q) QActive else true))
+              && (is_rec || negb (qstate_eqb (q_state q) QDraining)
+                            && (if no_stopped t then qstate_eqb (q_state q) QActive else true))
   | None => false
   end
   (* chosen by the first rule, in configured order, that yields a queue the application can use *)
   && existsb (fun i => match chosen_at t a (w_rules w) i with
                        | Some n => path_eqb (name_parts n) p
-                                   && match nth_error (w_rules w) i with
-                                      | Some r => match find_q t p with
-                                                  | Some _ => true
-                                                  | None => path_eqb p recovery_parts || create_ok t a r
-                                                  end
-                                      | None => false
-                                      end
                        | None => false
                        end) (seq 0 (length (w_rules w)))
-  (* admitted by an ACL on the way to the root (the recovery queue is exempt: forced placement) *)
-  && (if path_eqb p recovery_parts then forced a else acl_admitted t' a p)
-  (* an existing queue was a leaf and not draining, the hierarchy is unchanged; a new queue was created properly *)
-  && match find_q t p with
-     | Some q => q_leaf q && (path_eqb p recovery_parts || negb (qstate_eqb (q_state q) QDraining)) && unchanged t t'
+  (* admitted by an ACL on the way to the root; the recovery queue only by force-create *)
+  && (if is_rec then forced a else acl_admitted t' a p)
+  (* an existing queue was a leaf and not draining and the hierarchy is unchanged; a new queue was
+     created properly *)
+  && match get_parts t p with
+     | Some q => q_leaf q && (is_rec || negb (qstate_eqb (q_state q) QDraining)) && unchanged t t'
      | None => created_ok t t' p
      end.
 
@@ -226,10 +228,12 @@ Definition recovery_only_forced_b (a : app) (p : list str) : bool :=
 Definition unmatched_b (w : world) (a : app) : bool :=
   forallb (passes (w_tree w) a (w_rules w)) (seq 0 (length (w_rules w))).
 
-(* hierarchies are closed under taking the parent: what the children maps of the Go queues give *)
+(* hierarchies are closed under taking the parent (what the children maps of the Go queues give)
+   and contain the root queue *)
 Definition wf_tree (t : tree) : bool :=
-  forallb (fun q => match q_path q with
-                    | [] => false
-                    | [x] => str_eqb x s_root
-                    | p => match find_q t (removelast p) with Some _ => true | None => false end
-                    end) t.
+  (match find_q t [s_root] with Some _ => true | None => false end)
+  && forallb (fun q => match q_path q with
+                       | [] => false
+                       | [x] => str_eqb x s_root
+                       | p => match find_q t (removelast p) with Some _ => true | None => false end
+                       end) t.
